@@ -130,7 +130,7 @@ type ReplayOutcome struct {
 
 // Replay runs harness natively on the finding's vector. For findings that
 // depend on a map iteration order the harness is repeated until it fails.
-func (n *NativeRunner) Replay(pkgRel, harness string, vectorFile string, repeat int) ReplayOutcome {
+func (n *NativeRunner) Replay(pkgRel, harness string, vectorFile string, repeat int, synctest bool) ReplayOutcome {
 	ov, err := n.overlayFor(pkgRel)
 	if err != nil {
 		return ReplayOutcome{Err: err.Error()}
@@ -149,6 +149,9 @@ func (n *NativeRunner) Replay(pkgRel, harness string, vectorFile string, repeat 
 	}
 	env = append(env, "GOFLAGS=-mod=mod", "GOPROXY=off", "VERIF_HARNESS="+harness, "VERIF_VECTOR="+vectorFile,
 		fmt.Sprintf("VERIF_REPEAT=%d", repeat))
+	if synctest {
+		env = append(env, "VERIF_SYNCTEST=1")
+	}
 	cmd.Env = env
 	var buf bytes.Buffer
 	cmd.Stdout = &buf
